@@ -14,6 +14,33 @@ Arguments timed_out : simpl never.
 Opaque checksum_verify calculate_checksum checksum_calculation.
 
 (* ------------------------------------------------------------------ receiver: EOF before the data *)
+(* exact form after the F15 repair: the fault is declared once, by the verification; nothing is logged here
+   (the transaction id is not needed any more) *)
+Lemma eof_early_no_finish_exact : forall s s1 r,
+  d_state s = ST_BUSY -> h_mode (p_conf (d_p s)) = UNACKED -> p_rcfg (d_p s) = Some r ->
+  opt_z (p_file_size_eof (d_p s)) >= p_progress (d_p s) ->
+  checksum_verify s = (s1, Ok false) -> p_rcfg (d_p s1) = Some r ->
+  get_fault_handler (l_faults (d_cfg s1)) C_CHECKSUM_FAILURE = Some FH_IGNORE ->
+  exists s', handle_no_error_eof s = (s', Ok false) /\
+    d_step s' = DS_RECV_WITH_CHECK_LIMIT /\ p_check_count (d_p s') = 0 /\
+    p_check_timer (d_p s') = Some (now_d s1, l_check_ms (d_cfg s1)) /\ d_queue s' = d_queue s1 /\
+    log_d s' = log_d s1.
+Proof.
+  intros s s1 r Hst Hm Hr Hge Hcv Hr1 Hfh.
+  assert (opt_z (p_file_size_eof (d_p s)) <? p_progress (d_p s) = false) as Hlt by (apply Z.ltb_ge; lia).
+  unfold handle_no_error_eof, mode_is, tmode, gp, gets, get, bind, ret.
+  rewrite Hst, Hm, Hlt.
+  change (ST_BUSY =? ST_IDLE) with false. cbv beta iota.
+  change (UNACKED =? ACKED) with false. change (UNACKED =? UNACKED) with true.
+  rewrite andb_false_r. cbv beta iota.
+  rewrite Hcv. cbv beta iota.
+  rewrite Hfh. change (FH_IGNORE =? FH_IGNORE) with true. cbv beta iota.
+  destruct s1 as [cfg st step stid ready q p env]; destruct env as [nw fs rw lg].
+  cbn in Hr1. cbn. unfold bind. cbn. rewrite Hr1. cbn.
+  eexists. split; [reflexivity|]. cbn.
+  repeat split; reflexivity.
+Qed.
+
 Lemma eof_early_no_finish : forall s s1 r,
   d_state s = ST_BUSY -> h_mode (p_conf (d_p s)) = UNACKED -> p_rcfg (d_p s) = Some r ->
   opt_z (p_file_size_eof (d_p s)) >= p_progress (d_p s) ->
@@ -25,20 +52,10 @@ Lemma eof_early_no_finish : forall s s1 r,
     p_check_timer (d_p s') = Some (now_d s1, l_check_ms (d_cfg s1)) /\ d_queue s' = d_queue s1 /\
     (forall e, In e (log_d s') -> In e (log_d s1) \/ exists k a b c p, e = EvFault k a b c p).
 Proof.
-  intros s s1 r Hst Hm Hr Hge Hcv Hst1 Hr1 [a [b Htid]] Hfh.
-  assert (opt_z (p_file_size_eof (d_p s)) <? p_progress (d_p s) = false) as Hlt by (apply Z.ltb_ge; lia).
-  unfold handle_no_error_eof, mode_is, tmode, gp, gets, get, bind, ret.
-  rewrite Hst, Hm, Hlt.
-  change (ST_BUSY =? ST_IDLE) with false. cbv beta iota.
-  change (UNACKED =? ACKED) with false. change (UNACKED =? UNACKED) with true.
-  rewrite andb_false_r. cbv beta iota.
-  rewrite Hcv. cbv beta iota.
-  unfold declare_fault, gp, gets, bind. rewrite Htid, Hfh.
-  destruct s1 as [cfg st step stid ready q p env]; destruct env as [nw fs rw lg].
-  cbn in Hr1. cbn. unfold bind. cbn. rewrite Hr1. cbn.
-  eexists. split; [reflexivity|]. cbn.
-  repeat split; try reflexivity.
-  intros e [He|He]; [right; eauto 10 | left; exact He].
+  intros s s1 r Hst Hm Hr Hge Hcv _ Hr1 _ Hfh.
+  destruct (eof_early_no_finish_exact s s1 r Hst Hm Hr Hge Hcv Hr1 Hfh) as [s' [H1 [H2 [H3 [H4 [H5 H6]]]]]].
+  exists s'. repeat split; try assumption.
+  intros e He. left. rewrite <- H6. exact He.
 Qed.
 
 (* ------------------------------------------------------------------ receiver: the check timer *)
